@@ -6,6 +6,8 @@
 package strategy
 
 // ---- interface Strategy (C05 for an arbitrary wrapped strategy; warmup(self) is its abstract warm-up >= 0) ----
+//@ func interface Strategy.Name
+//@ pure
 //@ func interface Strategy.Compute
 //@ requires consumed(p0) == 0
 //@ ensures[C05] len(result) >= len(p0) && (len(p0) >= warmup(self) ==> len(result) == len(p0))
@@ -50,6 +52,17 @@ package strategy
 //@ ensures[C07,C05] dlast(a, k) == 0
 //@ induction k
 
+// normalisation state is unaffected by a leading run of Holds, and by skipping such a run (reports, C14)
+//@ lemma nlast_hold(a istream, w int, k int)
+//@ requires[C14] 0 <= k && k <= w && k <= len(a) && (forall j :: 0 <= j && j < w && j < len(a) ==> a[j] == 0)
+//@ ensures[C14] nlast(a, k) == 0 - 1
+//@ induction k
+//@ lemma nlast_skip(a istream, b istream, w int, k int)
+//@ requires[C14] w >= 0 && 0 <= k && k <= len(b) && len(b) + w <= len(a) && nlast(a, w) == 0 - 1
+//@ requires[C14] forall j :: 0 <= j && j < len(b) ==> b[j] == a[j + w]
+//@ ensures[C14] nlast(b, k) == nlast(a, k + w)
+//@ induction k
+
 // denormalising then normalising is the identity on normalised streams (C08), by induction on the position
 //@ lemma norm_denorm_id(s istream, d istream, k int)
 //@ requires[C08] 0 <= k && k <= len(s) && len(d) == len(s)
@@ -85,7 +98,16 @@ package strategy
 //@ lit#0 ensures[C08] "sell-converts-all-shares" old(shares) > 0 && action == Sell ==> balance == old(shares) * value && shares == 0
 //@ lit#0 ensures[C08] "outcome-is-portfolio-value" ret == balance + shares * value - 1
 
+//@ func ActionsToAnnotations
+//@ requires consumed(ac) == 0 && (forall k :: 0 <= k && k < len(ac) ==> 0 - 1 <= ac[k] && ac[k] <= 1)
+//@ ensures[C14] len(result) == len(ac)
+//@ ensures[C14] forall k :: 0 <= k && k < len(result) ==> result[k] == (normS(ac, k) == Sell ? "S" : (normS(ac, k) == Buy ? "B" : ""))
+//@ ensures[C03] consumed(ac) == len(ac) && closed(result)
+//@ ensures[C04] forall k :: 0 <= k && k < len(result) ==> hor(result, k) <= hor(ac, k)
+
+// callers see the body (inline): the concrete strategy's own Compute contract is used for s.Compute
 //@ func ComputeWithOutcome
+//@ inline
 //@ requires consumed(c) == 0 && (forall k :: 0 <= k && k < len(c) ==> c[k].Close > 0)
 //@ ensures[C08,C14] len(result0) >= len(c) && len(result1) == len(c)
 //@ ensures[C05] len(c) >= warmup(s) ==> len(result0) == len(c)
@@ -106,7 +128,7 @@ package strategy
 // Split: Buy from the first, Sell from the second, unless they conflict (C07)
 //@ func SplitStrategy.Compute
 //@ requires consumed(snapshots) == 0
-//@ ensures[C05] len(result) >= len(snapshots)
+//@ ensures[C05] len(result) >= len(snapshots) && (len(snapshots) >= warmup(s.BuyStrategy) && len(snapshots) >= warmup(s.SellStrategy) ==> len(result) == len(snapshots))
 //@ ensures[C05] forall k :: 0 <= k && k < len(result) ==> 0 - 1 <= result[k] && result[k] <= 1
 //@ ensures[C03] consumed(snapshots) == len(snapshots) && closed(result)
 //@ ensures[C04] forall k :: 0 <= k && k < len(result) && k < len(snapshots) ==> hor(result, k) <= hor(snapshots, k)
@@ -161,7 +183,7 @@ package strategy
 //@ requires len(a.Strategies) >= 1 && consumed(snapshots) == 0
 //@ ensures[C05,C07] len(result) >= len(snapshots) && ((forall j :: 0 <= j && j < len(a.Strategies) ==> len(snapshots) >= warmup(a.Strategies[j])) ==> len(result) == len(snapshots))
 //@ ensures[C05,C07] forall t :: 0 <= t && t < len(result) ==> 0 - 1 <= result[t] && result[t] <= 1
-//@ ensures[C07] "vote" forall t :: 0 <= t && t < len(result) ==> result[t] == (cntact(res(ActionSources), t, Sell, len(res(ActionSources))) == len(res(ActionSources)) ? Sell : (cntact(res(ActionSources), t, Buy, len(res(ActionSources))) == len(res(ActionSources)) ? Buy : Hold))
+//@ guarantees[C07] "vote" forall t :: 0 <= t && t < len(result) ==> result[t] == (cntact(res(ActionSources), t, Sell, len(res(ActionSources))) == len(res(ActionSources)) ? Sell : (cntact(res(ActionSources), t, Buy, len(res(ActionSources))) == len(res(ActionSources)) ? Buy : Hold))
 //@ ensures[C03] consumed(snapshots) == len(snapshots) && closed(result)
 //@ ensures[C04] forall t :: 0 <= t && t < len(result) && t < len(snapshots) ==> hor(result, t) <= hor(snapshots, t)
 //@ loop#0 invariant !closed(result) && (forall j :: 0 <= j && j < len(sources) ==> consumed(sources[j]) == sent(result))
@@ -173,7 +195,7 @@ package strategy
 //@ requires len(a.Strategies) >= 1 && consumed(snapshots) == 0
 //@ ensures[C05,C07] len(result) >= len(snapshots) && ((forall j :: 0 <= j && j < len(a.Strategies) ==> len(snapshots) >= warmup(a.Strategies[j])) ==> len(result) == len(snapshots))
 //@ ensures[C05,C07] forall t :: 0 <= t && t < len(result) ==> 0 - 1 <= result[t] && result[t] <= 1
-//@ ensures[C07] "vote" forall t :: 0 <= t && t < len(result) ==> result[t] == ((cntact(res(ActionSources), t, Sell, len(res(ActionSources))) > 0 && cntact(res(ActionSources), t, Buy, len(res(ActionSources))) == 0) ? Sell : ((cntact(res(ActionSources), t, Buy, len(res(ActionSources))) > 0 && cntact(res(ActionSources), t, Sell, len(res(ActionSources))) == 0) ? Buy : Hold))
+//@ guarantees[C07] "vote" forall t :: 0 <= t && t < len(result) ==> result[t] == ((cntact(res(ActionSources), t, Sell, len(res(ActionSources))) > 0 && cntact(res(ActionSources), t, Buy, len(res(ActionSources))) == 0) ? Sell : ((cntact(res(ActionSources), t, Buy, len(res(ActionSources))) > 0 && cntact(res(ActionSources), t, Sell, len(res(ActionSources))) == 0) ? Buy : Hold))
 //@ ensures[C03] consumed(snapshots) == len(snapshots) && closed(result)
 //@ ensures[C04] forall t :: 0 <= t && t < len(result) && t < len(snapshots) ==> hor(result, t) <= hor(snapshots, t)
 //@ loop#0 invariant !closed(result) && (forall j :: 0 <= j && j < len(sources) ==> consumed(sources[j]) == sent(result))
@@ -185,9 +207,70 @@ package strategy
 //@ requires len(a.Strategies) >= 1 && consumed(snapshots) == 0
 //@ ensures[C05,C07] len(result) >= len(snapshots) && ((forall j :: 0 <= j && j < len(a.Strategies) ==> len(snapshots) >= warmup(a.Strategies[j])) ==> len(result) == len(snapshots))
 //@ ensures[C05,C07] forall t :: 0 <= t && t < len(result) ==> 0 - 1 <= result[t] && result[t] <= 1
-//@ ensures[C07] "vote" forall t :: 0 <= t && t < len(result) ==> result[t] == ((cntact(res(ActionSources), t, Sell, len(res(ActionSources))) > cntact(res(ActionSources), t, Buy, len(res(ActionSources))) && cntact(res(ActionSources), t, Sell, len(res(ActionSources))) > (len(res(ActionSources)) - cntact(res(ActionSources), t, Buy, len(res(ActionSources))) - cntact(res(ActionSources), t, Sell, len(res(ActionSources))))) ? Sell : ((cntact(res(ActionSources), t, Buy, len(res(ActionSources))) > cntact(res(ActionSources), t, Sell, len(res(ActionSources))) && cntact(res(ActionSources), t, Buy, len(res(ActionSources))) > (len(res(ActionSources)) - cntact(res(ActionSources), t, Buy, len(res(ActionSources))) - cntact(res(ActionSources), t, Sell, len(res(ActionSources))))) ? Buy : Hold))
+//@ guarantees[C07] "vote" forall t :: 0 <= t && t < len(result) ==> result[t] == ((cntact(res(ActionSources), t, Sell, len(res(ActionSources))) > cntact(res(ActionSources), t, Buy, len(res(ActionSources))) && cntact(res(ActionSources), t, Sell, len(res(ActionSources))) > (len(res(ActionSources)) - cntact(res(ActionSources), t, Buy, len(res(ActionSources))) - cntact(res(ActionSources), t, Sell, len(res(ActionSources))))) ? Sell : ((cntact(res(ActionSources), t, Buy, len(res(ActionSources))) > cntact(res(ActionSources), t, Sell, len(res(ActionSources))) && cntact(res(ActionSources), t, Buy, len(res(ActionSources))) > (len(res(ActionSources)) - cntact(res(ActionSources), t, Buy, len(res(ActionSources))) - cntact(res(ActionSources), t, Sell, len(res(ActionSources))))) ? Buy : Hold))
 //@ ensures[C03] consumed(snapshots) == len(snapshots) && closed(result)
 //@ ensures[C04] forall t :: 0 <= t && t < len(result) && t < len(snapshots) ==> hor(result, t) <= hor(snapshots, t)
 //@ loop#0 invariant !closed(result) && (forall j :: 0 <= j && j < len(sources) ==> consumed(sources[j]) == sent(result))
 //@ loop#0 invariant forall t :: 0 <= t && t < sent(result) ==> result[t] == ((cntact(sources, t, Sell, len(sources)) > cntact(sources, t, Buy, len(sources)) && cntact(sources, t, Sell, len(sources)) > (len(sources) - cntact(sources, t, Buy, len(sources)) - cntact(sources, t, Sell, len(sources)))) ? Sell : ((cntact(sources, t, Buy, len(sources)) > cntact(sources, t, Sell, len(sources)) && cntact(sources, t, Buy, len(sources)) > (len(sources) - cntact(sources, t, Buy, len(sources)) - cntact(sources, t, Sell, len(sources)))) ? Buy : Hold))
 //@ loop#0 invariant forall t :: 0 <= t && t < sent(result) && t < len(snapshots) ==> hor(result, t) <= hor(snapshots, t)
+
+// ---- reports (C14): every column has one value per date row; rows carry that date's close, annotation, outcome ----
+//@ func BuyAndHoldStrategy.Report
+//@ requires consumed(c) == 0 && (forall k :: 0 <= k && k < len(c) ==> c[k].Close > 0)
+//@ ensures[C14] "column-count" len(result.Columns) == 3
+//@ ensures[C14] "one-value-per-date" len(c) > 0 ==> (forall i :: 0 <= i && i < len(result.Columns) ==> len(col(result.Columns[i])) == len(result.Date))
+//@ ensures[C14] "dates" len(c) > 0 ==> len(result.Date) <= len(c) && (forall k :: 0 <= k && k < len(result.Date) ==> result.Date[k] == c[k + len(c) - len(result.Date)].Date)
+//@ ensures[C14] "close" len(c) > 0 ==> (forall k :: 0 <= k && k < len(result.Date) ==> colnum(result.Columns[0])[k] == c[k + len(c) - len(result.Date)].Close)
+//@ ensures[C14] "annotation" len(c) > 0 ==> (forall k :: 0 <= k && k < len(result.Date) ==> colstr(result.Columns[1])[k] == (normS(res(BuyAndHoldStrategy_Compute), k + len(c) - len(result.Date)) == 0 - 1 ? "S" : (normS(res(BuyAndHoldStrategy_Compute), k + len(c) - len(result.Date)) == 1 ? "B" : "")))
+//@ ensures[C14] "outcome" len(c) > 0 ==> (forall k :: 0 <= k && k < len(result.Date) ==> colnum(result.Columns[2])[k] == res(Outcome)[k + len(c) - len(result.Date)] * 100)
+//@ ensures[C03] consumed(c) == len(c)
+//@ use nlast_hold(res(BuyAndHoldStrategy_Compute), len(res(BuyAndHoldStrategy_Compute)) - len(arg(ActionsToAnnotations, 0, 0)), len(res(BuyAndHoldStrategy_Compute)) - len(arg(ActionsToAnnotations, 0, 0)))
+//@ use nlast_skip(res(BuyAndHoldStrategy_Compute), arg(ActionsToAnnotations, 0, 0), len(res(BuyAndHoldStrategy_Compute)) - len(arg(ActionsToAnnotations, 0, 0)))
+
+//@ func SplitStrategy.Report
+//@ requires consumed(c) == 0 && (forall k :: 0 <= k && k < len(c) ==> c[k].Close > 0)
+//@ ensures[C14] "column-count" len(result.Columns) == 3
+//@ ensures[C14] "one-value-per-date" len(c) > 0 && (len(c) >= warmup(s.BuyStrategy) && len(c) >= warmup(s.SellStrategy)) ==> (forall i :: 0 <= i && i < len(result.Columns) ==> len(col(result.Columns[i])) == len(result.Date))
+//@ ensures[C14] "dates" len(c) > 0 && (len(c) >= warmup(s.BuyStrategy) && len(c) >= warmup(s.SellStrategy)) ==> len(result.Date) <= len(c) && (forall k :: 0 <= k && k < len(result.Date) ==> result.Date[k] == c[k + len(c) - len(result.Date)].Date)
+//@ ensures[C14] "close" len(c) > 0 && (len(c) >= warmup(s.BuyStrategy) && len(c) >= warmup(s.SellStrategy)) ==> (forall k :: 0 <= k && k < len(result.Date) ==> colnum(result.Columns[0])[k] == c[k + len(c) - len(result.Date)].Close)
+//@ ensures[C14] "annotation" len(c) > 0 && (len(c) >= warmup(s.BuyStrategy) && len(c) >= warmup(s.SellStrategy)) ==> (forall k :: 0 <= k && k < len(result.Date) ==> colstr(result.Columns[1])[k] == (normS(res(SplitStrategy_Compute), k + len(c) - len(result.Date)) == 0 - 1 ? "S" : (normS(res(SplitStrategy_Compute), k + len(c) - len(result.Date)) == 1 ? "B" : "")))
+//@ ensures[C14] "outcome" len(c) > 0 && (len(c) >= warmup(s.BuyStrategy) && len(c) >= warmup(s.SellStrategy)) ==> (forall k :: 0 <= k && k < len(result.Date) ==> colnum(result.Columns[2])[k] == res(Outcome)[k + len(c) - len(result.Date)] * 100)
+//@ ensures[C03] consumed(c) == len(c)
+//@ use nlast_hold(res(SplitStrategy_Compute), len(res(SplitStrategy_Compute)) - len(arg(ActionsToAnnotations, 0, 0)), len(res(SplitStrategy_Compute)) - len(arg(ActionsToAnnotations, 0, 0)))
+//@ use nlast_skip(res(SplitStrategy_Compute), arg(ActionsToAnnotations, 0, 0), len(res(SplitStrategy_Compute)) - len(arg(ActionsToAnnotations, 0, 0)))
+
+//@ func AndStrategy.Report
+//@ requires len(a.Strategies) >= 1 && consumed(c) == 0 && (forall k :: 0 <= k && k < len(c) ==> c[k].Close > 0)
+//@ ensures[C14] "column-count" len(result.Columns) == 3
+//@ ensures[C14] "one-value-per-date" len(c) > 0 && ((forall j :: 0 <= j && j < len(a.Strategies) ==> len(c) >= warmup(a.Strategies[j]))) ==> (forall i :: 0 <= i && i < len(result.Columns) ==> len(col(result.Columns[i])) == len(result.Date))
+//@ ensures[C14] "dates" len(c) > 0 && ((forall j :: 0 <= j && j < len(a.Strategies) ==> len(c) >= warmup(a.Strategies[j]))) ==> len(result.Date) <= len(c) && (forall k :: 0 <= k && k < len(result.Date) ==> result.Date[k] == c[k + len(c) - len(result.Date)].Date)
+//@ ensures[C14] "close" len(c) > 0 && ((forall j :: 0 <= j && j < len(a.Strategies) ==> len(c) >= warmup(a.Strategies[j]))) ==> (forall k :: 0 <= k && k < len(result.Date) ==> colnum(result.Columns[0])[k] == c[k + len(c) - len(result.Date)].Close)
+//@ ensures[C14] "annotation" len(c) > 0 && ((forall j :: 0 <= j && j < len(a.Strategies) ==> len(c) >= warmup(a.Strategies[j]))) ==> (forall k :: 0 <= k && k < len(result.Date) ==> colstr(result.Columns[1])[k] == (normS(res(AndStrategy_Compute), k + len(c) - len(result.Date)) == 0 - 1 ? "S" : (normS(res(AndStrategy_Compute), k + len(c) - len(result.Date)) == 1 ? "B" : "")))
+//@ ensures[C14] "outcome" len(c) > 0 && ((forall j :: 0 <= j && j < len(a.Strategies) ==> len(c) >= warmup(a.Strategies[j]))) ==> (forall k :: 0 <= k && k < len(result.Date) ==> colnum(result.Columns[2])[k] == res(Outcome)[k + len(c) - len(result.Date)] * 100)
+//@ ensures[C03] consumed(c) == len(c)
+//@ use nlast_hold(res(AndStrategy_Compute), len(res(AndStrategy_Compute)) - len(arg(ActionsToAnnotations, 0, 0)), len(res(AndStrategy_Compute)) - len(arg(ActionsToAnnotations, 0, 0)))
+//@ use nlast_skip(res(AndStrategy_Compute), arg(ActionsToAnnotations, 0, 0), len(res(AndStrategy_Compute)) - len(arg(ActionsToAnnotations, 0, 0)))
+
+//@ func OrStrategy.Report
+//@ requires len(a.Strategies) >= 1 && consumed(c) == 0 && (forall k :: 0 <= k && k < len(c) ==> c[k].Close > 0)
+//@ ensures[C14] "column-count" len(result.Columns) == 3
+//@ ensures[C14] "one-value-per-date" len(c) > 0 && ((forall j :: 0 <= j && j < len(a.Strategies) ==> len(c) >= warmup(a.Strategies[j]))) ==> (forall i :: 0 <= i && i < len(result.Columns) ==> len(col(result.Columns[i])) == len(result.Date))
+//@ ensures[C14] "dates" len(c) > 0 && ((forall j :: 0 <= j && j < len(a.Strategies) ==> len(c) >= warmup(a.Strategies[j]))) ==> len(result.Date) <= len(c) && (forall k :: 0 <= k && k < len(result.Date) ==> result.Date[k] == c[k + len(c) - len(result.Date)].Date)
+//@ ensures[C14] "close" len(c) > 0 && ((forall j :: 0 <= j && j < len(a.Strategies) ==> len(c) >= warmup(a.Strategies[j]))) ==> (forall k :: 0 <= k && k < len(result.Date) ==> colnum(result.Columns[0])[k] == c[k + len(c) - len(result.Date)].Close)
+//@ ensures[C14] "annotation" len(c) > 0 && ((forall j :: 0 <= j && j < len(a.Strategies) ==> len(c) >= warmup(a.Strategies[j]))) ==> (forall k :: 0 <= k && k < len(result.Date) ==> colstr(result.Columns[1])[k] == (normS(res(OrStrategy_Compute), k + len(c) - len(result.Date)) == 0 - 1 ? "S" : (normS(res(OrStrategy_Compute), k + len(c) - len(result.Date)) == 1 ? "B" : "")))
+//@ ensures[C14] "outcome" len(c) > 0 && ((forall j :: 0 <= j && j < len(a.Strategies) ==> len(c) >= warmup(a.Strategies[j]))) ==> (forall k :: 0 <= k && k < len(result.Date) ==> colnum(result.Columns[2])[k] == res(Outcome)[k + len(c) - len(result.Date)] * 100)
+//@ ensures[C03] consumed(c) == len(c)
+//@ use nlast_hold(res(OrStrategy_Compute), len(res(OrStrategy_Compute)) - len(arg(ActionsToAnnotations, 0, 0)), len(res(OrStrategy_Compute)) - len(arg(ActionsToAnnotations, 0, 0)))
+//@ use nlast_skip(res(OrStrategy_Compute), arg(ActionsToAnnotations, 0, 0), len(res(OrStrategy_Compute)) - len(arg(ActionsToAnnotations, 0, 0)))
+
+//@ func MajorityStrategy.Report
+//@ requires len(a.Strategies) >= 1 && consumed(c) == 0 && (forall k :: 0 <= k && k < len(c) ==> c[k].Close > 0)
+//@ ensures[C14] "column-count" len(result.Columns) == 3
+//@ ensures[C14] "one-value-per-date" len(c) > 0 && ((forall j :: 0 <= j && j < len(a.Strategies) ==> len(c) >= warmup(a.Strategies[j]))) ==> (forall i :: 0 <= i && i < len(result.Columns) ==> len(col(result.Columns[i])) == len(result.Date))
+//@ ensures[C14] "dates" len(c) > 0 && ((forall j :: 0 <= j && j < len(a.Strategies) ==> len(c) >= warmup(a.Strategies[j]))) ==> len(result.Date) <= len(c) && (forall k :: 0 <= k && k < len(result.Date) ==> result.Date[k] == c[k + len(c) - len(result.Date)].Date)
+//@ ensures[C14] "close" len(c) > 0 && ((forall j :: 0 <= j && j < len(a.Strategies) ==> len(c) >= warmup(a.Strategies[j]))) ==> (forall k :: 0 <= k && k < len(result.Date) ==> colnum(result.Columns[0])[k] == c[k + len(c) - len(result.Date)].Close)
+//@ ensures[C14] "annotation" len(c) > 0 && ((forall j :: 0 <= j && j < len(a.Strategies) ==> len(c) >= warmup(a.Strategies[j]))) ==> (forall k :: 0 <= k && k < len(result.Date) ==> colstr(result.Columns[1])[k] == (normS(res(MajorityStrategy_Compute), k + len(c) - len(result.Date)) == 0 - 1 ? "S" : (normS(res(MajorityStrategy_Compute), k + len(c) - len(result.Date)) == 1 ? "B" : "")))
+//@ ensures[C14] "outcome" len(c) > 0 && ((forall j :: 0 <= j && j < len(a.Strategies) ==> len(c) >= warmup(a.Strategies[j]))) ==> (forall k :: 0 <= k && k < len(result.Date) ==> colnum(result.Columns[2])[k] == res(Outcome)[k + len(c) - len(result.Date)] * 100)
+//@ ensures[C03] consumed(c) == len(c)
+//@ use nlast_hold(res(MajorityStrategy_Compute), len(res(MajorityStrategy_Compute)) - len(arg(ActionsToAnnotations, 0, 0)), len(res(MajorityStrategy_Compute)) - len(arg(ActionsToAnnotations, 0, 0)))
+//@ use nlast_skip(res(MajorityStrategy_Compute), arg(ActionsToAnnotations, 0, 0), len(res(MajorityStrategy_Compute)) - len(arg(ActionsToAnnotations, 0, 0)))
